@@ -33,7 +33,6 @@ theorem roundtrip : ∀ s, 1 ≤ s → s ≤ 2^31 → scaledForMaxHash (maxHashF
   · exact roundtrip_ge2 s h h2
 example : scaledForMaxHash (maxHashForScaled 1000) = 1000 := roundtrip 1000 (by decide) (by decide)
 example : scaledForMaxHash (maxHashForScaled (2^31)) = 2^31 := roundtrip _ (by decide) (by decide)
-example : (1 : Nat) ≤ 2^31 ∧ (1:Nat) ≤ 1 := by decide
 
 /-- T-antitone: a larger scaled never gives a larger ceiling, on the whole 64-bit range
     (`u64 → f64` and the correctly rounded division are monotone, the truncating cast too). -/
